@@ -8,6 +8,10 @@
 //   geturl <rawpath> <none|hdr> <signing 0|1> <ttlNs> <key> <present> <nominalNowNs>
 //        http.NewRequest("GET", "http://keep.example"+rawpath) with the raw Authorization value
 //                                      -> badurl | 301 hex(Location path) | <status> [hex(body)]
+//   getremote <loc> <tok> <remote ids a,b|-> <ttlNs> <key> <rpresent> <nominalNowNs>
+//        BlobSigning on; the listed remote clusters are configured and all resolve to one stub
+//        Keep server (keepclients pre-seeded, so no discovery request is made)
+//                 -> <status> [hex(body)] | <hex forwarded locator> <hex forwarded token> [; …] or "| -"
 //   getnow <loc> <tok> <ttlNs> <key> <present> <nominalNowNs>
 //        BlobSigning on; sign <loc> with keepstore's SignLocator for the whole second that has
 //        already begun (expiry instant strictly in the past), GET it at once with the same token;
@@ -39,7 +43,9 @@ import (
 
 	"git.arvados.org/arvados.git/lib/config"
 	"git.arvados.org/arvados.git/sdk/go/arvados"
+	"git.arvados.org/arvados.git/sdk/go/arvadosclient"
 	"git.arvados.org/arvados.git/sdk/go/ctxlog"
+	"git.arvados.org/arvados.git/sdk/go/keepclient"
 	"github.com/prometheus/client_golang/prometheus"
 )
 
@@ -73,9 +79,14 @@ func verifC07Int(s string) int64 {
 }
 
 type verifC07Env struct {
-	cluster *arvados.Cluster
-	h       *handler
+	cluster    *arvados.Cluster
+	h          *handler
+	remote     *httptest.Server // stub Keep service of every configured remote cluster
+	remoteSeen []string         // "<hex locator> <hex token>" per request it received
 }
+
+// Blocks the stub remote Keep service holds; the generator knows this list.
+var verifC07Remote = []string{"remote-only block", "foo", "another remote block\n"}
 
 func (e *verifC07Env) do(method, loc, tok string, body []byte) *httptest.ResponseRecorder {
 	resp := httptest.NewRecorder()
@@ -141,6 +152,38 @@ func (e *verifC07Env) run(line string) (out string) {
 			return "301 " + verifC07Enc(u.Path)
 		}
 		return strconv.Itoa(resp.Code)
+	case f[0] == "getremote" && len(f) == 8:
+		// remote-proxy exit: the configured remote clusters all resolve to one stub Keep server
+		e.config("1", verifC07Int(f[4]), verifC07Hex(f[5]))
+		e.cluster.RemoteClusters = map[string]arvados.RemoteCluster{}
+		clients := map[string]*keepclient.KeepClient{}
+		if f[3] != "-" {
+			for _, id := range strings.Split(f[3], ",") {
+				e.cluster.RemoteClusters[id] = arvados.RemoteCluster{Host: "localhost:9"}
+				kc := &keepclient.KeepClient{
+					Arvados:       &arvadosclient.ArvadosClient{ApiServer: "localhost:9", ApiToken: "xxx"},
+					Want_replicas: 1,
+					HTTPClient:    http.DefaultClient,
+				}
+				kc.SetServiceRoots(map[string]string{id + "-bi6l4-000000000000000": e.remote.URL}, nil, nil)
+				clients[id] = kc
+			}
+		}
+		rtr := e.h.Handler.(*router)
+		rtr.remoteProxy.mtx.Lock()
+		rtr.remoteProxy.clients = clients
+		rtr.remoteProxy.mtx.Unlock()
+		e.remoteSeen = nil
+		resp := e.do("GET", verifC07Hex(f[1]), verifC07Hex(f[2]), nil)
+		st := strconv.Itoa(resp.Code)
+		if resp.Code == 200 {
+			st = "200 " + verifC07Enc(resp.Body.String())
+		}
+		seen := "-"
+		if len(e.remoteSeen) > 0 {
+			seen = strings.Join(e.remoteSeen, " ; ")
+		}
+		return st + " | " + seen
 	case f[0] == "getnow" && len(f) == 7:
 		e.config("1", verifC07Int(f[3]), verifC07Hex(f[4]))
 		var out string
@@ -222,6 +265,19 @@ func TestVerifC07(t *testing.T) {
 		"zzzzz-nyw5e-000000000000000": {Replication: 1, Driver: "Directory", DriverParameters: params},
 	}
 	env := &verifC07Env{cluster: cluster, h: &handler{}}
+	env.remote = httptest.NewServer(http.HandlerFunc(func(w http.ResponseWriter, r *http.Request) {
+		loc := strings.TrimPrefix(r.URL.Path, "/")
+		env.remoteSeen = append(env.remoteSeen, verifC07Enc(loc)+" "+verifC07Enc(strings.TrimPrefix(r.Header.Get("Authorization"), "OAuth2 ")))
+		for _, b := range verifC07Remote {
+			if strings.HasPrefix(loc, fmt.Sprintf("%x", md5.Sum([]byte(b)))) {
+				w.Header().Set("Content-Length", strconv.Itoa(len(b)))
+				w.Write([]byte(b))
+				return
+			}
+		}
+		http.Error(w, "not found", http.StatusNotFound)
+	}))
+	defer env.remote.Close()
 	if err := env.h.setup(context.Background(), cluster, "", prometheus.NewRegistry(), testServiceURL); err != nil {
 		t.Fatal(err)
 	}
